@@ -36,16 +36,16 @@ def chk(pid, section, text, note, technique):
 
 CHECKS = {
  "C10": chk("C10", "DESIGN.md §3, §10",
-   "Seeded search over process lifetimes: each lifetime is one fresh interpreter that executes a sequence of generated histories of public-API operations back to back (so every history runs on top of what its predecessors left in the process), with rejected operations (front end and back end), sympy-cache flushes, garbage collections and (thorough) interrupts injected at seeded library source lines. Oracles: O2 every live object keeps its fingerprint after every operation; O1/O3-late every operation's dependency closure re-executed on fresh objects, in reverse order, in the same by then well used process reproduces the history's result; O1/O3 canary operations spliced into every history equal their reference computed alone in a fork of an import-only process; O1/O3-cross every lifetime is run twice with its histories in opposite order and every operation must give the same result after both pasts (differences are arbitrated by a freshly forked reference). A clean batch is evidence, not proof.",
+   "Seeded search over process lifetimes: each lifetime is one fresh interpreter that executes a sequence of generated histories of public-API operations back to back (so every history runs on top of what its predecessors left in the process), over the vendored corpus, a typed grammar, families built to collide and near-twins derived by one AST mutation under the same name, with rejected operations (front end, back end, refused recompiles followed by another use of the object), sympy-cache flushes, garbage collections and (thorough) interrupts injected at seeded library source lines. Oracles: O2 every live object keeps its fingerprint after every operation; O1/O3-late every operation's dependency closure re-executed on fresh objects, in reverse order, in the same by then well used process reproduces the history's result; O1/O3 canary operations spliced into every history equal their reference computed alone in a fork of an import-only process; O1/O3-cross every lifetime is run twice with its histories in opposite order and every operation must give the same result after both pasts (differences are arbitrated by a freshly forked reference). A clean batch is evidence, not proof.",
    "Trusts: the fingerprint covers the observable state the property lists; fork of an import-only process == fresh interpreter (cross-checked on a sample each batch); hash seed, sympy cache size and ASLR are held equal between history and reference. CPython, sympy, qiskit are real; only the ipykernel marker module and a temp directory are stubs.",
    "deterministic simulation: seeded API-operation histories with fault injection, reference-model oracles"),
  "C08": chk("C08", "DESIGN.md §4, §10",
-   "Seeded bind histories under the simulator: 1-5 unbound functions (31 typed templates whose meaning is plain Python, over bool / Qint / Qfixed / Qchar / Qlist / Qmatrix / nested Tuple parameters; corpus programs with arguments re-annotated as parameters; from source strings or real defs; with and without defs=) are bound 3-24 times, repeating and alternating values, keyword orders, value forms (tuples, lists, one-shot iterators) and objects, with wrong-arity / unknown-keyword / out-of-range binds and cache flushes, collections and interrupts injected inside bind(). At every bind: B0 bind rejects only what cannot be specialised by hand either; B2 the exhaustive truth table equals that of the program with the assignments prepended by hand and compiled the ordinary way (arbitrated by Python / the typed-argument form); B1 it equals plain Python's value (generated functions), with a diagnosis that separates the two open known findings (declared Qint / Qfixed type dropped) from everything else; B3 the unbound object and its callees are unaltered; B4 the same bind gives the same result wherever it is made and the same as a fresh unbound object bound once; B5 the classical function the bound object carries (f()) is the Python function with the parameters set. B6 the bound function's compiled circuit, run classically on every basis input, computes what the circuit of the hand-built specialisation compiled with the same options computes (differential: a circuit/table disagreement both share is the compiler's, C02, and is only counted). A clean batch is evidence, not proof.",
+   "Seeded bind histories under the simulator: 1-5 unbound functions (31 typed templates whose meaning is plain Python, over bool / Qint / Qfixed / Qchar / Qlist / Qmatrix / nested Tuple parameters; corpus programs and one-mutation near-twins of them with arguments re-annotated as parameters; from source strings or real defs; with and without defs=) are bound 3-24 times, repeating and alternating values, keyword orders, value forms (tuples, lists, one-shot iterators) and objects, with wrong-arity / unknown-keyword / out-of-range binds and cache flushes, collections and interrupts injected inside bind(). At every bind: B0 bind rejects only what cannot be specialised by hand either; B2 the exhaustive truth table equals that of the program with the assignments prepended by hand and compiled the ordinary way (arbitrated by Python / the typed-argument form); B1 it equals plain Python's value (generated functions), with a diagnosis that separates the two open known findings (declared Qint / Qfixed type dropped) from everything else; B3 the unbound object and its callees are unaltered; B4 the same bind gives the same result wherever it is made and the same as a fresh unbound object bound once; B5 the classical function the bound object carries (f()) is the Python function with the parameters set. B6 the bound function's compiled circuit, run classically on every basis input, computes what the circuit of the hand-built specialisation compiled with the same options computes (differential: a circuit/table disagreement both share is the compiler's, C02, and is only counted). A clean batch is evidence, not proof.",
    "Trusts: plain-Python evaluation on ints/bools/floats/characters/tuples as the meaning of the generated programs (templates use only operators whose Python value is the meaning at every width); exhaustive tables up to 8 input bits (12 for the typed-argument form used in the diagnosis). Two open known findings (declared Qint width / declared Qfixed type dropped by bind) are matched by their diagnosis only; every other disagreement is a violation.",
    "deterministic simulation: seeded bind histories with fault injection, differential + Python-value oracles"),
  "C14": chk("C14", "DESIGN.md §5",
    "Model-based state machine run under the seeded simulator: real QCircuit/QCircuitEnhanced objects are driven by generated histories of composition operators (append_circuit with injective remaps, +, +=, += gate tuples incl. one gate object or one wires list used twice, repeat(1..6), copy, copy(vanilla), remove_identities, qft;iqft on any qubit sub-list given as indices or names, add_qubit), builder calls by index or by remembered name, and opaque public mutators (naming, ancilla management, uncompute) on any pool member, with composition operators interrupted (KeyboardInterrupt at a seeded library line) in a separate arm, mirrored by a reference model (qubit count + unitary composed by the model's own rule + the harness's own name table) and checked after every step over the whole pool: the operator completes (A0), the target/result has the model's unitary (A1, incl. after a later uncompute() following remove_identities), nobody but the target changed structurally or in its bookkeeping (A2); independence over time follows from re-checking after every later mutation. A clean batch is evidence, not proof.",
-   "Trusts: one gate-list -> matrix function (numpy) shared by model and observer; QCircuit.random and compiled circuits trusted at creation only; remaps injective and in range; repeat for n >= 1; circuits up to 5-6 qubits.",
+   "Trusts: one gate-list -> matrix function (numpy) shared by model and observer (a gate whose class/attributes and whose name stand for different matrices is reported as unobservable); QCircuit.random and compiled circuits trusted at creation only; remaps injective and in range; repeat for n >= 1; circuits up to 5-6 qubits.",
    "deterministic simulation: seeded operator histories on a circuit pool against a unitary reference model"),
 }
 
